@@ -39,7 +39,8 @@ else:
     dest = f"sim/elvis-core/tests/{name}.rs"
 crate = "elvis" if dest.startswith("sim/elvis/") else "elvis-core"
 unit = "/src/" in dest
-run_demo = (f"cargo test --offline -p {crate} --lib {name}" if unit else f"cargo test --offline -p {crate} --test {name}")
+flags = open(f"{D}/demo_flags.txt").read().strip() + " " if os.path.exists(f"{D}/demo_flags.txt") else ""
+run_demo = (f"cargo test --offline -p {crate} {flags}--lib {name}" if unit else f"cargo test --offline -p {crate} {flags}--test {name}")
 
 def place():
     os.makedirs(os.path.dirname(f"{WT}/{dest}"), exist_ok=True)
